@@ -129,6 +129,39 @@ static void check_case (const Case &c, Outcome &o) {
   }
   c_entry_t ent = (c_entry_t) dlsym (h, "entry");
   if (!ent) { cleanup (); return o.fail ("C20:no-entry", "translation has no function entry"); }
+  // ---- data sections: the object the translation defines for a section head holds the section's bytes, contiguously
+  for (auto &mod : c.prog.mods) {
+    size_t di = 0;
+    while (di < mod.datas.size ()) {
+      const DataItem &head = mod.datas[di];
+      if (head.name.compare (0, 2, "ds") != 0) { di++; continue; }
+      std::vector<uint8_t> img;
+      std::vector<std::pair<size_t, int64_t>> refs;  // offset, disp of `ref entry` members
+      size_t dj = di;
+      do {
+        const DataItem &d = mod.datas[dj];
+        if (d.k == DataItem::BSS) img.insert (img.end (), d.len, 0);
+        else if (d.k == DataItem::REF) { refs.push_back ({img.size (), d.disp}); img.insert (img.end (), 8, 0); }
+        else img.insert (img.end (), d.bytes.begin (), d.bytes.end ());
+        dj++;
+      } while (dj < mod.datas.size () && mod.datas[dj].name.empty ());
+      const uint8_t *obj = (const uint8_t *) dlsym (h, head.name.c_str ());
+      if (!obj) { dlclose (h); cleanup (); return o.fail ("C20:data-missing", "the translation defines no object " + head.name); }
+      for (auto &r : refs) {
+        int64_t v = (int64_t) (intptr_t) ent + r.second;
+        memcpy (&img[r.first], &v, 8);
+      }
+      if (memcmp (obj, img.data (), img.size ()) != 0) {
+        size_t k = 0;
+        while (obj[k] == img[k]) k++;
+        std::string d = strfmt ("section %s (%zu bytes, %zu items): byte %zu is %02x, the MIR section has %02x", head.name.c_str (), img.size (), dj - di, k, obj[k], img[k]);
+        dlclose (h);
+        cleanup ();
+        return o.fail (dj - di > 1 ? "C20:data-differs:multi-item-section" : "C20:data-differs:single-item", d + "\n--- translation:\n" + csrc.substr (0, 6000));
+      }
+      di = dj;
+    }
+  }
   uint8_t *buf = the_buffer ();
   std::string diff, kind;
   for (size_t i = 0; i < c.inputs.size () && diff.empty (); i++) {
